@@ -1,5 +1,6 @@
 import AuProofs.Lemmas.Chrono
 import AuProofs.Lemmas.ChronoOps
+import AuProofs.Lemmas.ChronoRne
 set_option linter.unusedSimpArgs false
 set_option linter.unusedVariables false
 namespace Au.Chrono
@@ -201,6 +202,28 @@ theorem C17_mixed_ops_agree (R : Rounding) (op : Op) (d1 d2 : Duration) (nm : Op
   · exact quantityOp_agree R op _ _ d1 d2 hR (asQuantity_mag d1) rfl rfl (asQuantity_mag d2) rfl rfl h1 h2 hx1 hx2 hc1 hc2 v hclean
   · exact quantityOp_agree R op _ _ d1 d2 hR (asQuantity_mag d1) rfl rfl rfl rfl rfl h1 h2 hx1 hx2 hc1 hc2 v hclean
   · exact quantityOp_agree R op _ _ d1 d2 hR (asQuantity_mag d1) rfl rfl (asQuantity_mag d2) rfl rfl h1 h2 hx1 hx2 hc1 hc2 v hclean
+
+/-- **C17, mixed operations, for the driver's rounding function** (IEEE round-to-nearest-even with
+gradual underflow, `rne`): no hypothesis about rounding remains — `RoundingOK rne` is proved in
+`AuProofs.Lemmas.ChronoRne` (`rne_roundingOK`). -/
+theorem C17_mixed_ops_agree_rne (op : Op) (d1 d2 : Duration) (nm : Option String)
+    (h1 : d1.period.Pos) (h2 : d2.period.Pos)
+    (hx1 : d1.count.Holds rne d1.rep) (hx2 : d2.count.Holds rne d2.rep)
+    (hc1 : ((ratioDivide d1.period (chronoCommonPeriod d1.period d2.period)).num : Int) ≤ i64hi)
+    (hc2 : ((ratioDivide d2.period (chronoCommonPeriod d1.period d2.period)).num : Int) ≤ i64hi)
+    (v : OpVal) (hclean : (chronoOp rne op d1 d2).Clean v) :
+    mixedOpQD rne op ⟨d1.rep, ratioMag d1.period, nm, d1.count⟩ d2 = .ok v ∧
+    mixedOpQD rne op (asQuantity d1) d2 = .ok v ∧
+    mixedOpDQ rne op d1 ⟨d2.rep, ratioMag d2.period, nm, d2.count⟩ = .ok v ∧
+    mixedOpDQ rne op d1 (asQuantity d2) = .ok v :=
+  C17_mixed_ops_agree rne op d1 d2 nm (fun _ => rne_roundingOK) h1 h2 hx1 hx2 hc1 hc2 v hclean
+
+/-- Non-vacuity with floating reps: `duration<float, ratio<1,60>>{7.5} + Quantity<milli(seconds), int64_t>{3}`:
+chrono's computation is clean with result 384 (common rep float, common period 1/3000). -/
+example : (chronoOp rne .add ⟨.f32, ⟨1, 60⟩, .f (15 / 2)⟩ ⟨.i64, ⟨1, 1000⟩, .i 3⟩).Clean (.v (.f 384)) ∧
+    (Val.f (15 / 2)).Holds rne .f32 ∧
+    mixedOpDQ rne .add ⟨.f32, ⟨1, 60⟩, .f (15 / 2)⟩ (asQuantity ⟨.i64, ⟨1, 1000⟩, .i 3⟩) = .ok (.v (.f 384)) := by
+  refine ⟨⟨by decide +kernel, by decide +kernel⟩, ⟨Fmt.single, rfl, by decide +kernel⟩, by decide +kernel⟩
 
 /-- Integral reps: no hypothesis about floating point at all. -/
 theorem C17_mixed_ops_agree_int (R : Rounding) (op : Op) (d1 d2 : Duration) (nm : Option String)
